@@ -69,3 +69,7 @@ func (x *VerifValidator) PartiallyValidate(ctx context.Context, m *PartialGMessa
 func (x *VerifValidator) FullyValidate(ctx context.Context, m PartiallyValidatedMessage) (ValidatedMessage, error) {
 	return x.v.FullyValidateMessage(ctx, m)
 }
+
+func VerifVrfInput(beacon []byte, instance, round uint64, nn NetworkName) []byte {
+	return vrfSerializeSigInput(beacon, instance, round, nn)
+}
